@@ -1087,6 +1087,9 @@ def run(ctx):
                  if os.path.exists(repo + '/mpf/tests/machine_files/%s/config/%s' % (d, f))]
     fres = harness.pmap(exec_fuzz, fuzz_jobs, chunk=1, item_timeout=45)
     ctx.log('device fuzz executed: %d machines' % len(fuzz_jobs))
+    # an execution that crashed / overran its wall-clock guard comes back from pmap as a crash record, not as a list of traces
+    fres = [r_ if isinstance(r_, list) else [{'_skip': 'fuzz of %s/%s not completed (%s)' % (
+        os.path.basename(j[0]), j[1], str((r_.get('ev') or [{}])[0].get('what', 'crash'))[:80])}] for r_, j in zip(fres, fuzz_jobs)]
     ftraces = [t for r_ in fres for t in r_ if '_skip' not in t]
     ctx.coverage['device_machines'] = sorted({t['_machine'] for t in ftraces})
     ctx.coverage['device_machines_skipped'] = [t['_skip'] for r_ in fres for t in r_ if '_skip' in t][:10]
